@@ -31,6 +31,8 @@ def check(ctx):
     from ..lib import discarded_results
     ctx.sub(discarded_results, 'C10.S1', ('qstrader/portcon/order_sizer/', 'qstrader/broker/fee_model/'), 'each asset is sized with its own allocation, fee estimate and price')
     ctx.sub(s1_formula)
+    from . import c18
+    ctx.sub(c18.state_scan, (CN,))      # what the sizer keeps between calls must not change what it answers
     ctx.sub(s2_guards)
     # the fee estimate is the configured fee model applied to the share: the model must not depend on the (placeholder) quantity
     from . import c05, c06, c08
